@@ -26,6 +26,7 @@ CONF = {
         inv=['InvC03', 'InvViews'],
         mc=[('base', ['Submit', 'Move', 'Renew', 'Tick', 'Down', 'Freeze', 'Up', 'RemoveServer', 'AddServer', 'SetPrio'], None)],
         gen=['base', 'topology', 'twins', 'lease'], weights=['lease', 'lease', 'failure'],
+        focus=[('base', 'gen_move_down'), ('topology', 'gen_move_down')],
         rule='a history counts when some cycle assigns an instance to a (new) server; distinct = distinct environment histories'),
     'C04': dict(
         inv=['InvC04', 'InvViews'],
